@@ -219,3 +219,83 @@ Example quantile_example :
   rank_bucket (1 # 2) [mkB Q (Some 1) 2; mkB Q (Some 2) 6; mkB Q None 8] = 1%nat /\
   bq_core Q qops 0 (1 # 2) [mkB Q (Some 1) 2; mkB Q (Some 2) 6; mkB Q None 8] == 3 # 2.
 Proof. split; vm_compute; reflexivity. Qed.
+
+(* ---- on a histogram that is already sorted, merged and monotone the preprocessing of
+   bucket_quantile changes nothing: bucket_quantile is bq_core ----------------------------------- *)
+
+Inductive chain : list qbucket -> Prop :=
+| chain_last c : chain [mkB Q None c]
+| chain_cons u c b r : chain (b :: r) ->
+    (match qub b with Some u' => u < u' | None => True end) -> c <= qcnt b ->
+    chain (mkB Q (Some u) c :: b :: r).
+
+Lemma qlt_false a b : a <= b -> RangeArith.ltb qops b a = false.
+Proof. intros H. simpl. apply negb_false_iff. apply Qle_bool_iff. exact H. Qed.
+
+Lemma chain_sorted m : chain m -> sort_b Q qops m = m.
+Proof.
+  induction 1 as [c|u c b r Hc IH Hu Hcnt]; [reflexivity|].
+  change (sort_b Q qops (mkB Q (Some u) c :: b :: r)) with (insert_b Q qops (mkB Q (Some u) c) (sort_b Q qops (b :: r))).
+  rewrite IH. cbn [insert_b].
+  assert (E : ub_ltb Q qops (qub b) (Some u) = false).
+  { destruct (qub b) as [u'|]; simpl; [|reflexivity]. apply negb_false_iff. apply Qle_bool_iff. apply Qlt_le_weak. exact Hu. }
+  cbn [Bucket.ub]. rewrite E. reflexivity.
+Qed.
+
+Lemma chain_coalesced m : chain m -> coalesce Q qops m = m.
+Proof.
+  intros H. destruct m as [|x r]; [reflexivity|]. cbn [coalesce].
+  revert x H. induction r as [|y r IH]; intros x H; [reflexivity|].
+  assert (Hx : exists u c, x = mkB Q (Some u) c /\ chain (y :: r) /\ (match qub y with Some u' => u < u' | None => True end)).
+  { inversion H; subst. eexists. eexists. split; [reflexivity|]. split; assumption. }
+  destruct Hx as (u & c & -> & Hc & Hu). cbn [coalesce_from Bucket.ub].
+  assert (E : ub_eqb Q qops (qub y) (Some u) = false).
+  { destruct (qub y) as [u'|]; simpl; [|reflexivity].
+    destruct (Qeq_bool u' u) eqn:E; [|reflexivity]. apply Qeq_bool_iff in E. rewrite E in Hu. exfalso. exact (Qlt_irrefl _ Hu). }
+  rewrite E. f_equal. apply IH. exact Hc.
+Qed.
+
+Lemma chain_tail y z l : chain (y :: z :: l) -> chain (z :: l) /\ qcnt y <= qcnt z.
+Proof. intros H. inversion H; subst. split; simpl; assumption. Qed.
+
+Lemma chain_monotone m : chain m -> ensure_monotonic Q qops m = m.
+Proof.
+  intros H. destruct m as [|x r]; [reflexivity|]. cbn [ensure_monotonic]. f_equal.
+  assert (G : forall l mx, (match l with [] => True | y :: _ => mx <= qcnt y end) -> (l = [] \/ chain l) -> mono_from Q qops mx l = l).
+  { induction l as [|y l IH]; intros mx Hmx Hl; [reflexivity|]. cbn [mono_from].
+    destruct Hl as [Hl|Hl]; [discriminate|].
+    destruct (RangeArith.ltb qops mx (qcnt y)) eqn:E1.
+    - f_equal. apply IH.
+      + destruct l as [|z l']; [exact I|]. apply (chain_tail y z l' Hl).
+      + destruct l as [|z l']; [left; reflexivity|]. right. apply (chain_tail y z l' Hl).
+    - rewrite (qlt_false _ _ Hmx). f_equal. apply IH.
+      + destruct l as [|z l']; [exact I|]. destruct (chain_tail y z l' Hl) as [_ Hyz].
+        assert (Hym : qcnt y <= mx).
+        { simpl in E1. apply negb_false_iff in E1. apply Qle_bool_iff in E1. exact E1. }
+        assert (Hmy : mx <= qcnt y) by exact Hmx.
+        eapply Qle_trans; [exact Hmy|exact Hyz].
+      + destruct l as [|z l']; [left; reflexivity|]. right. apply (chain_tail y z l' Hl). }
+  apply G.
+  - destruct r as [|y r']; [exact I|]. apply (chain_tail x y r' H).
+  - destruct r as [|y r']; [left; reflexivity|]. right. apply (chain_tail x y r' H).
+Qed.
+
+Lemma chain_last_inf m d : chain m -> qub (last m d) = None.
+Proof.
+  induction 1 as [c|u c b r Hc IH Hu Hcnt]; [reflexivity|].
+  change (last (mkB Q (Some u) c :: b :: r) d) with (last (b :: r) d). exact IH.
+Qed.
+
+Theorem bucket_quantile_is_core pinf ninf q m : chain m -> 0 <= q -> q <= 1 ->
+  bucket_quantile Q qops pinf ninf q m = bq_core Q qops pinf q m.
+Proof.
+  intros Hc Hq0 Hq1. unfold bucket_quantile.
+  assert (E1 : isnan qops q = false) by reflexivity. rewrite E1.
+  change (zero qops) with 0. change (one qops) with 1.
+  rewrite (qlt_false _ _ Hq0), (qlt_false _ _ Hq1).
+  rewrite (chain_sorted m Hc), (chain_last_inf m _ Hc), (chain_coalesced m Hc), (chain_monotone m Hc).
+  destruct m as [|x r]; [inversion Hc|reflexivity].
+Qed.
+
+Example chain_example : chain [mkB Q (Some 1) 2; mkB Q (Some 2) 6; mkB Q None 8].
+Proof. repeat constructor; simpl; unfold Qlt, Qle; simpl; lia. Qed.
